@@ -4,5 +4,5 @@ set -e
 cd "$(dirname "$0")"
 export CARGO_NET_OFFLINE=true
 python3 tools/extract.py || true
-(cd lean && lake build EcModel ecdriver)
+(cd lean && lake build EcModel $(grep -o 'drv_c[0-9a-z_]*' lakefile.toml | sort -u))
 (cd harness && cargo build --offline)
